@@ -233,6 +233,8 @@ pub enum Op
     Build { goal: Option<u16> },
     Clean { goal: Option<u16> },
     Tamper { t: u16, content: u8 },
+    /// put an older file (content from the pool, modification time in the past) at a target path, like `mv backup target`
+    TamperOld { t: u16, content: u8 },
     DeleteTarget { t: u16 },
     DeleteCacheEntry { k: u16 },
     DeleteRulerDir,
@@ -265,6 +267,7 @@ impl Op
             Op::Clean { goal: None } => "clean",
             Op::Clean { goal: Some(_) } => "clean-goal",
             Op::Tamper { .. } => "tamper",
+            Op::TamperOld { .. } => "tamper-old-mtime",
             Op::DeleteTarget { .. } => "delete-target",
             Op::DeleteCacheEntry { .. } => "delete-cache-entry",
             Op::DeleteRulerDir => "delete-ruler-dir",
@@ -323,6 +326,7 @@ pub fn op(mix: OpMix) -> impl Strategy<Value = Op>
         (16, goal.prop_map(|goal| Op::Build { goal }).boxed()),
         (4 * cl, goal2.prop_map(|goal| Op::Clean { goal }).boxed()),
         (4, (any::<u16>(), 0u8..5).prop_map(|(t, content)| Op::Tamper { t, content }).boxed()),
+        (2, (any::<u16>(), 0u8..5).prop_map(|(t, content)| Op::TamperOld { t, content }).boxed()),
         (4, any::<u16>().prop_map(|t| Op::DeleteTarget { t }).boxed()),
         (3 * dm, any::<u16>().prop_map(|k| Op::DeleteCacheEntry { k }).boxed()),
         (dm, Just(Op::DeleteRulerDir).boxed()),
